@@ -4,7 +4,7 @@ cd "$(dirname "$0")"
 {
   echo "-R . RV"
   echo "-arg -w -arg -notation-overridden,-deprecated-hint-without-locality,-deprecated-syntactic-definition"
-  ls Model/*.v Spec/*.v Proofs/*.v Run/*.v Properties/*.v 2>/dev/null | sort
+  ls Model/*.v Gen/*.v Spec/*.v Proofs/*.v Run/*.v Properties/*.v 2>/dev/null | sort
 } > _CoqProject.new
 if ! cmp -s _CoqProject.new _CoqProject; then mv _CoqProject.new _CoqProject; else rm _CoqProject.new; fi
 if [ ! -f Makefile ] || [ _CoqProject -nt Makefile ]; then coq_makefile -f _CoqProject -o Makefile >/dev/null; fi
